@@ -487,9 +487,19 @@ var msgMatchers = []msgMatcher{
 	},
 }
 
-func c14Tables(c *Ctx, r *Report, rule string) {
-	r.rule(rule, "verdict tables of the small matchers (ssh, proxy_protocol, xmpp, socks5, socks4): Match, evaluated path by path on first messages with fixed bytes (boundary and near-miss messages included; a read beyond the message answers need-more) under provisioned configurations, answers exactly what the reference predicate written from the protocol definition answers: matched / not matched / need more data", 40)
+func c14Tables(c *Ctx, r *Report, rule string) { c14TablesFor(c, r, rule, "") }
+
+// c14TablesFor: the verdict tables, restricted to the matchers whose configuration name starts with only.
+func c14TablesFor(c *Ctx, r *Report, rule, only string) {
+	floor := 40
+	if only != "" {
+		floor = 5
+	}
+	r.rule(rule, "verdict tables of the small matchers (ssh, proxy_protocol, xmpp, socks5, socks4): Match, evaluated path by path on first messages with fixed bytes (boundary and near-miss messages included; a read beyond the message answers need-more) under provisioned configurations, answers exactly what the reference predicate written from the protocol definition answers: matched / not matched / need more data", floor)
 	for _, mm := range msgMatchers {
+		if only != "" && !strings.HasPrefix(mm.cfgName, only) {
+			continue
+		}
 		fn := c.Fn(mm.fn)
 		if fn == nil {
 			r.bad(rule, mm.fn, mm.cfgName, "-", "matcher not found")
